@@ -142,4 +142,45 @@ Design(form, frame0, policy) ==
 EvalCommon(d, newframe) == Matrix(newframe, d.common_labels, LabelVal)
 EvalGroup(d, newframe) == Matrix(newframe, d.group_labels, GroupLabelVal)
 PermuteRows(m, rows) == [k \in 1..Len(rows) |-> m[rows[k]]]
+
+(* ---------------- unseen levels and new groups (C10) ---------------- *)
+\* levels are frozen at training time: a cell of the new frame is unseen when its level is not
+\* among the training levels
+Unseen(train, new, v, r) == IsCat(train, v) /\ Cell(new, v, r) \notin Range(Levels(train, v))
+UnseenRows(train, new, vars) == {r \in 1..new.n : \E v \in vars : Unseen(train, new, v, r)}
+CommonVars(form) == UNION {Range(form.terms[j]) : j \in 1..Len(form.terms)}
+GroupVars(form) == UNION {Range(form.groups[j].e) \cup Range(form.groups[j].g) : j \in 1..Len(form.groups)}
+\* common matrix: the indicator meaning of a label already gives 0 on a level it does not name,
+\* so every column involving the variable is 0 on exactly the rows holding an unseen level and
+\* every other entry is what it would be otherwise
+EvalCommonMode(form, train, d, new, mode) ==
+  IF mode = "error" /\ UnseenRows(train, new, CommonVars(form)) # {} THEN [status |-> "raise"]
+  ELSE [status |-> "ok", common |-> Matrix(new, d.common_labels, LabelVal)]
+\* group matrix: per term, the training blocks followed -- iff some row belongs to an unseen group
+\* of that term's factor -- by one block carrying the effect values of exactly those rows
+EffLabelsOf(labs, ncells) == [j \in 1..(Len(labs) \div ncells) |-> labs[j][1]]
+EvalGroupTerm(form, train, new, gt) ==
+  LET labs == GroupTermLabels(form, train, gt)
+      ncells == Len(GroupCells(train, gt.g))
+      effs == EffLabelsOf(labs, ncells)
+      nr == UnseenRows(train, new, Range(gt.g))
+  IN [r \in 1..new.n |->
+        [j \in 1..Len(labs) |-> GroupLabelVal(new, labs[j], r)] \o
+        (IF nr = {} THEN <<>> ELSE [j \in 1..Len(effs) |-> IF r \in nr THEN LabelVal(new, effs[j], r) ELSE 0])]
+RECURSIVE ConcatRows(_, _)
+ConcatRows(ms, n) ==   \* ms: sequence of matrices with n rows each
+  [r \in 1..n |-> Flat([k \in 1..Len(ms) |-> ms[k][r]])]
+RECURSIVE DistinctSeq(_)
+DistinctSeq(s) == IF s = <<>> THEN <<>>
+                  ELSE LET rest == DistinctSeq(SubSeq(s, 1, Len(s) - 1)) IN
+                         IF s[Len(s)] \in Range(rest) THEN rest ELSE Append(rest, s[Len(s)])
+EvalGroupMode(form, train, new, mode) ==
+  IF mode = "error" /\ UnseenRows(train, new, GroupVars(form)) # {} THEN [status |-> "raise"]
+  ELSE LET ms == [j \in 1..Len(form.groups) |-> EvalGroupTerm(form, train, new, form.groups[j])]
+           widths == [j \in 1..Len(ms) |-> IF new.n = 0 THEN 0 ELSE Len(ms[j][1])]
+           newfac == SelectSeq(form.groups, LAMBDA gt : UnseenRows(train, new, Range(gt.g)) # {})
+       IN [status |-> "ok",
+           group |-> ConcatRows(ms, new.n),
+           slices |-> SliceSeq(widths, 0),
+           factors_new |-> DistinctSeq([j \in 1..Len(newfac) |-> newfac[j].g])]
 =============================================================================
